@@ -267,6 +267,39 @@ def c07(tier, sc):
             {"kind": "xss.conf", "in": m["in"], "ctx": m["ctx"], "spec": m["spec"], "impl": m["impl"]})
     rep.cov["traces_validated_against_impl"] += len(beh)
     rep.part("replayB", behaviours=len(beh), mismatches=len(mism))
+    # IsXSS(s) = OR over the five contexts of the specification's verdicts
+    byin = {}
+    for b in beh:
+        byin.setdefault(bytes(b["in"]), {})[b["ctx"]] = b["xss"]
+    full = [(k, v) for k, v in byin.items() if len(v) == 5]
+    res = api_all(sc, vh, [list(k) for k, _ in full])
+    nor = 0
+    for (k, v), r in zip(full, res):
+        if bad_result(r):
+            continue
+        nor += 1
+        if r["xss"] != any(v.values()):
+            rep.violation("IsXSS(%r) = %s but the specification's contexts give %s" % (show(list(k)), r["xss"], v),
+                          {"kind": "xss.or", "a": list(k), "spec_ctx": {str(c): x for c, x in v.items()}})
+    rep.part("or_of_contexts", inputs=nor)
+    # the classifier predicates compared directly on arguments derived from the lists, and the decoder
+    pred = xss_gen(sc, d, rep, "pred", "pred")
+    pred += [dict(c, f="dec") for c in xss_gen(sc, d, rep, "dec", "dec", vgen.b("&#xX;019aFg"), 4, templates=decoder_ladders())]
+    url = xss_gen(sc, d, rep, "url", "url")
+    pred += [{"in": c["in"], "f": "url", "r": [1 if c["pred"] else 0]} for c in url[::3]]
+    res = vlib.harness_map(sc, vh, "xss-pred", [{"f": c["f"], "in": c["in"]} for c in pred])
+    npred = 0
+    for c, r in zip(pred, res):
+        exp = c["r"] if isinstance(c["r"], list) else [c["r"]]
+        if r is None or "crash" in r or "hang" in r or "panic" in r:
+            rep.violation("predicate %s failed on %r: %s" % (c["f"], show(c["in"]), r), {"kind": "xss.pred", "f": c["f"], "a": c["in"], "expect": exp})
+            continue
+        npred += 1
+        if r["r"] != exp:
+            rep.violation("predicate %s(%r) = %s in the real code, %s in the specification" % (c["f"], show(c["in"]), r["r"], exp),
+                          {"kind": "xss.pred", "f": c["f"], "a": c["in"], "expect": exp, "impl": r["r"]})
+    rep.part("predicates", compared=npred)
+    rep.cov["traces_validated_against_impl"] += nor + npred
     # direction A: real executions validated by TLC
     inputs = xss_inputs(tier, "c07")
     ev, ntr, rejects, _ = xss_trace_validate(sc, d, rep, vh, inputs)
@@ -473,6 +506,17 @@ def c15(tier, sc):
     frags = [f for f in frags if f]
     walks = list(vgen.walks(frags, r, 200000 if big else 20000, 1, 12))
     inputs += walks
+    # prose laden with every listed name: tags, on<event>, attributes, schemes
+    tables = json.load(open(gen_tables(sc, vh)[1]))
+    names = [t for t in tables["tags"]] + [vgen.b("on") + e["name"] for e in tables["events"]] + [a["name"] for a in tables["attrs"]]
+    names += [vgen.b(x) for x in ("javascript:alert(1)", "vbscript:x", "data:text/html,x", "view-source:x", "xmlns", "xlink:href", "svg", "xsl")]
+    prose = []
+    for nm in names:
+        low = [c + 32 if 65 <= c <= 90 else c for c in nm]
+        for pre, post in (("", ""), (" ", " "), ("x ", ">"), ("'", "'"), ('"', ' x"'), ("`", " "), ("x/", "/>"), ("> ", " "), ("x' ", " y"), ("-->", "")):
+            prose.append(vgen.b(pre) + low + vgen.b(post))
+        prose.append(nm + vgen.b(" ") + low)
+    inputs += prose
     res = api_all(sc, vh, inputs)
     n = 0
     for x, rr in zip(inputs, res):
@@ -481,7 +525,7 @@ def c15(tier, sc):
         n += 1
         if rr["xss"]:
             rep.violation("IsXSS(%r) = true although the input has no '<' and no '='" % show(x), {"kind": "xss.c15", "a": x})
-    rep.part("real", model_cases=len(cases), walks=len(walks), evaluated=n)
+    rep.part("real", model_cases=len(cases), walks=len(walks), list_name_prose=len(prose), evaluated=n)
     rep.cov["traces_validated_against_impl"] = n
     rep.cov["evaluations"] = n
     for x in inputs[5000:5003] + walks[:2]:
